@@ -648,6 +648,19 @@ func c17Check(c *core.Ctx, cs *c17Case, verbose bool) int {
 		case o.Stdout != "" || len(rec.Log) > 0:
 			c.Violation("rejected-late", "", "Funcs {"+c17Describe(cs)+"} was rejected only after the program had started", "no output, no call", o.String()+" calls: "+c17FmtLog(rec.Log), cs)
 		default:
+			// a reusable Interpreter must reject the map on every Execute, not only on the first
+			if ip, nerr := interp.New(prog); nerr == nil && ip != nil {
+				for k := 1; k <= 3; k++ {
+					rec.Log = nil
+					ok := run.Exec(prog, &interp.Config{Funcs: funcs, Stdin: strings.NewReader(pg.stdin)}, run.Opts{Interp: ip})
+					c.Count("rejections_on_reused_interpreter", 1)
+					if ok.Panic != "" || ok.Err == "" || ok.Stdout != "" || len(rec.Log) > 0 {
+						c.Violation("invalid-accepted", "reused-interpreter", fmt.Sprintf("Funcs {%s} is rejected by a first Execute but Execute #%d on the same Interpreter ran: %s", c17Describe(cs), k, core.Clip(ok.String(), 300)),
+							"the same setup error on every Execute", ok.String()+" calls: "+c17FmtLog(rec.Log), cs)
+						return 1
+					}
+				}
+			}
 			c.Count("rejected_at_setup", 1)
 			c.Cover("invalid_rejected", what)
 			c.Cover("reject_messages", msgClass(o.Err))
